@@ -1,4 +1,5 @@
 import PortusModel.Props.C11
+import PortusModel.Props.VerticalDown
 import PortusModel.Props.Tables
 #print axioms Portus.C11.resolveFields_spec
 #print axioms Portus.C11.set_program_spec
@@ -7,5 +8,6 @@ import PortusModel.Props.Tables
 #print axioms Portus.C11.update_field_effect
 #print axioms Portus.C11.updatable_reg_encodes
 #print axioms Portus.C06.changeprog_read_by_libccp
+#print axioms Portus.Vertical.update_by_name_reaches_register
 #print axioms Portus.Tables.src_updFilter_eq
 #print axioms Portus.Tables.src_resolveField_eq
